@@ -586,6 +586,10 @@ impl Client {
                 .map_err(|_| poisoned_lock_error("client pending map"))?;
             pending.insert(id, sender);
         }
+        #[cfg(feature = "verif-hooks")]
+        crate::verif_hooks::probe("client.after_register", id);
+        #[cfg(feature = "verif-hooks")]
+        crate::verif_hooks::probe("client.before_write", id);
 
         if let Err(err) = self.write_request(&msg) {
             self.remove_pending(id);
@@ -606,7 +610,11 @@ impl Client {
             Some(duration) => match receiver.recv_timeout(duration) {
                 Ok(value) => value,
                 Err(mpsc::RecvTimeoutError::Timeout) => {
+                    #[cfg(feature = "verif-hooks")]
+                    crate::verif_hooks::probe("timeout.before_remove", id);
                     self.remove_pending(id);
+                    #[cfg(feature = "verif-hooks")]
+                    crate::verif_hooks::probe("timeout.after_remove", id);
                     Err(request_timeout_error(id, duration))
                 }
                 Err(mpsc::RecvTimeoutError::Disconnected) => {
@@ -786,15 +794,31 @@ fn spawn_response_loop(mut reader: BufReader<TcpStream>, inner: std::sync::Weak<
                 }
             };
 
+            #[cfg(feature = "verif-hooks")]
+            match &dispatch {
+                PendingDispatch::Matched { response, .. } => {
+                    crate::verif_hooks::probe("reader.after_match", response.header.id)
+                }
+                PendingDispatch::Unrecognized { got_id } => {
+                    crate::verif_hooks::probe("reader.unmatched", *got_id)
+                }
+            }
+
             match dispatch {
                 PendingDispatch::Matched { sender, response } => {
+                    #[cfg(feature = "verif-hooks")]
+                    crate::verif_hooks::probe("reader.before_deliver", response.header.id);
                     let _ = sender.send(Ok(response));
                 }
                 PendingDispatch::Unrecognized { got_id } => {
                     eprintln!("[repe] dropping response for unrecognized request id {got_id}");
                 }
             }
+            #[cfg(feature = "verif-hooks")]
+            crate::verif_hooks::probe("reader.after_dispatch", 0);
         }
+        #[cfg(feature = "verif-hooks")]
+        crate::verif_hooks::probe("reader.exit", 0);
     });
 }
 
@@ -805,7 +829,11 @@ fn fail_all_pending(inner: &std::sync::Weak<ClientInner>, err: RepeError) {
 
     // Not through `writer`: a caller stalled in `write` holds that mutex, and the
     // waiters below must be failed whether or not the peer ever reads again.
+    #[cfg(feature = "verif-hooks")]
+    crate::verif_hooks::probe("failall.enter", 0);
     let _ = inner_ref.control.shutdown(Shutdown::Both);
+    #[cfg(feature = "verif-hooks")]
+    crate::verif_hooks::probe("failall.after_shutdown", 0);
 
     let waiters = {
         let mut map = match inner_ref.pending.lock() {
@@ -814,10 +842,18 @@ fn fail_all_pending(inner: &std::sync::Weak<ClientInner>, err: RepeError) {
         };
         map.drain().collect::<Vec<_>>()
     };
+    #[cfg(feature = "verif-hooks")]
+    crate::verif_hooks::probe("failall.after_drain", waiters.len() as u64);
 
     for (request_id, sender) in waiters {
+        #[cfg(feature = "verif-hooks")]
+        crate::verif_hooks::probe("failall.before_send", request_id);
         let _ = sender.send(Err(clone_fatal_error_for_waiter(&err, request_id)));
+        #[cfg(feature = "verif-hooks")]
+        crate::verif_hooks::probe("failall.after_send", request_id);
     }
+    #[cfg(feature = "verif-hooks")]
+    crate::verif_hooks::probe("failall.done", 0);
 }
 
 fn clone_fatal_error_for_waiter(err: &RepeError, request_id: u64) -> RepeError {
